@@ -35,7 +35,7 @@ open Tw.SnapXfer Tw.SnapMgr
 copy of the newest stored snapshot (repair of D25), and the 64 KiB the glue reserves for the packed
 delta. -/
 theorem tie_storage :
-    maxStored = 100 ∧ Tw.Gen.SnapMgr.lits_add_delta = [1, 0, 1] ∧
+    maxStored = 100 ∧ Tw.Gen.SnapMgr.lits_add_delta = [0, 1, 1, maxStored] ∧
       Tw.Gen.SnapMgr.lits_set_delta_tick = [0, 1] ∧
       Tw.Gen.SnapMgr.glue_base_tick_or_minus_one = true ∧
       Tw.Gen.SnapMgr.new_builder_continues_newest = true ∧ writeCapacity = 65536 := by decide
